@@ -442,7 +442,6 @@ func (s *Scheme) Sign(c context.Context, msgHash []byte, topic string) ([]byte, 
 
 	topicHash := hash([]byte(topic))
 	topicHashText := hex.EncodeToString(topicHash)
-	msgHashHex := hex.EncodeToString(msgHash)
 
 	start := time.Now()
 
@@ -477,7 +476,7 @@ func (s *Scheme) Sign(c context.Context, msgHash []byte, topic string) ([]byte, 
 		}
 
 		s.Logger.Infof("Parties %v out of %v (mapped to %v) were selected to sign message hash %s with a topic of %s",
-			signers, membership.universalIdentifiers, partyIDs, msgHashHex[:8], topicHashText[:8])
+			signers, membership.universalIdentifiers, partyIDs, logPrefix(msgHash), topicHashText[:8])
 
 		s.Logger.Debugf("Synchronization on topic %s took %v", topicHashText[:8], time.Since(start))
 
@@ -566,7 +565,7 @@ func (s *Scheme) Sign(c context.Context, msgHash []byte, topic string) ([]byte, 
 	case <-ctx.Done():
 		return nil, ctx.Err()
 	case res := <-resultChan:
-		s.Logger.Infof("Successfully signed message hash %s", msgHashHex[:8])
+		s.Logger.Infof("Successfully signed message hash %s", logPrefix(msgHash))
 		return res.sig, res.err
 	}
 }
